@@ -11,8 +11,8 @@ def Job.thenP? : Job → Option Nat
   | .thenable _ p _ _ => some p
   | .reaction _ _ _ _ => none
 
-/-- Promises for which a thenable job is pending (current batch, then queue). -/
-def thenJobs (k : K) : List Nat := (k.cur ++ k.queue).filterMap Job.thenP?
+/-- Promises for which a thenable job is pending, oldest first. -/
+def thenJobs (k : K) : List Nat := k.jobs.filterMap Job.thenP?
 
 def latchLive (p : Nat) (l : Nat × Bool) : Bool := l.1 == p && !l.2
 
